@@ -92,6 +92,10 @@ def mk_data(vals, carrier="nd_f8"):
     if carrier == "nd_i8":
         assert all(v is not None and Fraction(v).denominator == 1 for v in vals)
         return np.array([int(v) for v in vals], dtype=np.int64)
+    if carrier == "nd_i1":
+        # the narrowest signed dtype: a sum or difference of two cells leaves its range
+        assert all(v is not None and Fraction(v).denominator == 1 and -128 <= v < 128 for v in vals)
+        return np.array([int(v) for v in vals], dtype=np.int8)
     if carrier == "nd_u2":
         assert all(v is not None and Fraction(v).denominator == 1 and 0 <= v < 65536 for v in vals)
         return np.array([int(v) for v in vals], dtype=np.uint16)
@@ -108,6 +112,12 @@ def mk_data(vals, carrier="nd_f8"):
         masked = set(miss[::2])
         data = np.array([(7.25 if i in masked else np.nan) if v is None else float(v) for i, v in enumerate(vals)], dtype=np.float64)
         return np.ma.array(data, mask=[i in masked for i in range(len(vals))])
+    if carrier in ("ma_i4", "ma_u1"):
+        # integer-dtype masked array with an explicit mask array (an integer variable with a _FillValue): missing cells are
+        # masked and hold a fill number; the mask array is allocated even when nothing is missing
+        assert all(v is None or Fraction(v).denominator == 1 for v in vals)
+        dtype = np.int32 if carrier == "ma_i4" else np.uint8
+        return np.ma.array([7 if v is None else int(v) for v in vals], mask=[v is None for v in vals], dtype=dtype)
     if carrier == "list_masked":
         return [np.ma.masked if v is None else float(v) for v in vals]
     if carrier == "series":
@@ -243,6 +253,17 @@ def clim_config(members, span_kind="list", tkind="iso"):
             a, b = m["tspan"]
             if tkind == "iso":
                 d["tspan"] = mk([iso(a), iso(b)])
+            elif tkind in ("us", "unpadded", "pydt"):
+                # other spellings of the same instants: month/day/year text, ISO-like text without zero padding (text
+                # order differs from time order for both), Python datetimes
+                def sp(sec, kind=tkind):
+                    d_ = dt.datetime(1970, 1, 1) + dt.timedelta(seconds=int(sec))
+                    if kind == "pydt":
+                        return d_
+                    if kind == "us":
+                        return f"{d_.month}/{d_.day}/{d_.year} {d_.hour:02d}:{d_.minute:02d}:{d_.second:02d}"
+                    return f"{d_.year}-{d_.month}-{d_.day} {d_.hour}:{d_.minute:02d}:{d_.second:02d}"
+                d["tspan"] = mk([sp(a), sp(b)])
             elif tkind == "stamp":
                 d["tspan"] = mk([pd.Timestamp(int(a), unit="s"), pd.Timestamp(int(b), unit="s")])
             else:
